@@ -69,7 +69,11 @@ func c24Judge(c c24Case, v view.View, n int, what string) *eng.Fail {
 		return &eng.Fail{Sig: c.Kind + " render panic " + eng.PanicSite(stack), What: fmt.Sprintf("%s: Print(%d) panics: %v", what, n, p), Case: c}
 	}
 	if err != nil {
-		return nil // an error is a regular answer
+		if n >= v.MinLines() {
+			// UI.Run stops the application on this error
+			return &eng.Fail{Sig: c.Kind + " render fails", What: fmt.Sprintf("%s: Print(%d) with %d >= MinLines()=%d fails: %v", what, n, n, v.MinLines(), err), Case: c}
+		}
+		return nil
 	}
 	got := uix.LinesWritten(out)
 	c24Wrote = got > 0
@@ -149,6 +153,25 @@ func c24Run(c c24Case) *eng.Fail {
 			return nil
 		}
 		return c24Judge(c, v, c.N, fmt.Sprintf("composite of children (min,max) %v", c.Kids))
+	case "screen":
+		// the rule of view.Print: a screen of c.N >= MinLines lines grants
+		// MaxLines lines when that is non-negative and fits, else c.N
+		var kids []view.View
+		for _, k := range c.Kids {
+			kids = append(kids, stubView{k[0], k[1]})
+		}
+		v := view.NewComposite(kids...)
+		if c.N < v.MinLines() {
+			return nil
+		}
+		n := v.MaxLines()
+		if n < 0 || n > c.N {
+			n = c.N
+		}
+		if n < v.MinLines() {
+			return &eng.Fail{Sig: "screen grants-less-than-minimum", What: fmt.Sprintf("composite of children (min,max) %v on a screen of %d lines: MaxLines()=%d < MinLines()=%d, so view.Print grants less than the minimum and the UI stops", c.Kids, c.N, v.MaxLines(), v.MinLines()), Case: c}
+		}
+		return c24Judge(c, v, n, fmt.Sprintf("screen of %d lines, composite of children (min,max) %v", c.N, c.Kids))
 	case "app":
 		s, f := c22Replay(c22Case{Prog: c.Prog, History: c.History, Heights: nil})
 		if f != nil || s == nil || s.Quit {
@@ -159,7 +182,7 @@ func c24Run(c c24Case) *eng.Fail {
 			return &eng.Fail{Sig: "app render panic " + eng.PanicSite(r.Stack), What: fmt.Sprintf("%s screen at height %d panics: %v", s.ModeKind(), c.N, r.Panic), Case: c}
 		}
 		if r.Err != nil {
-			return nil
+			return &eng.Fail{Sig: "app render fails " + s.ModeKind(), What: fmt.Sprintf("program %s: the %s screen at height %d (>= its declared minimum) is not rendered: %v", c.Prog, s.ModeKind(), c.N, r.Err), Case: c}
 		}
 		c24Wrote = uix.LinesWritten(r.Out) > 0
 		if got := uix.LinesWritten(r.Out); got > c.N {
@@ -172,7 +195,7 @@ func c24Run(c c24Case) *eng.Fail {
 func init() {
 	checks["C24"] = eng.Check{
 		Procs:       8,
-		Rule:        "listing view: codes of 1..8 instructions in one block and 2- and 3-block codes (listings of 3..14 lines) x EVERY cursor position x every granted n from MinLines (and MaxLines when smaller) to Len+3; register view: every register count 0..5 x with/without the instruction pointer x value widths {1,4,8,16}; memory view: nil memory and every union of <=2 runs with endpoints from {0,1,15,16,17,31,32,33,47,48,4096..} x every cursor row x n in 5..12; generic composite: every combination of 2..3 stub children with min in 0..2 and max in {unbounded, min..min+2} x n from MinLines to MinLines+5; application screens (disassembler, emulator after steps, memory view) at every height 7..40. Output captured and counted: never a panic, never more lines than granted, a view with MinLines == MaxLines writes exactly that many. Non-trivial = render that wrote at least one line.",
+		Rule:        "listing view: codes of 1..8 instructions in one block and 2- and 3-block codes (listings of 3..14 lines) x EVERY cursor position x every granted n from MinLines (and MaxLines when smaller) to Len+3; register view: every register count 0..5 x with/without the instruction pointer x value widths {1,4,8,16}; memory view: nil memory and every union of <=2 runs with endpoints from {0,1,15,16,17,31,32,33,47,48,4096..} x every cursor row x n in 5..12; generic composite: every combination of 2..3 stub children with min in 0..2 and max in {unbounded, min..min+2} x n from MinLines to MinLines+5; whole screens following view.Print (grant MaxLines when it fits, else the height) over composites of 2..3 stub children including children whose declared maximum is below their minimum, at heights MinLines..MinLines+6; application screens (disassembler, emulator after steps, memory view) of the 4 programs at every height 7..40. A Print that returns an error for n >= MinLines counts as a failure (UI.Run stops on it). Output captured and counted: never a panic, never more lines than granted, a view with MinLines == MaxLines writes exactly that many. Non-trivial = render that wrote at least one line.",
 		Assumptions: []string{"a line = a newline written (plus one for trailing text without newline)", "the command prompt (declares 2 lines, prints one without newline) is only judged against the upper bound"},
 		Run: func(r *eng.Run) {
 			item := 0
@@ -262,6 +285,27 @@ func init() {
 				kinds = append(kinds, [2]int{mn, -1})
 				for mx := mn; mx <= mn+2; mx++ {
 					kinds = append(kinds, [2]int{mn, mx})
+				}
+			}
+			// whole screens of composites, including children that declare a
+			// maximum below their minimum (a listing shorter than 5 lines does)
+			skinds := append([][2]int{}, kinds...)
+			for mn := 1; mn <= 5; mn += 2 {
+				for mx := 0; mx < mn; mx++ {
+					skinds = append(skinds, [2]int{mn, mx})
+				}
+			}
+			for _, a := range skinds {
+				for _, b := range skinds {
+					base := a[0] + b[0] + 1
+					for n := base; n <= base+6; n++ {
+						do(c24Case{Kind: "screen", Kids: [][2]int{a, b}, N: n})
+					}
+					for _, c3 := range [][2]int{{2, 2}, {1, -1}, {3, 1}} {
+						for n := base + c3[0] + 1; n <= base+c3[0]+7; n++ {
+							do(c24Case{Kind: "screen", Kids: [][2]int{a, b, c3}, N: n})
+						}
+					}
 				}
 			}
 			for _, a := range kinds {
